@@ -718,3 +718,52 @@ def reaching_defs(body, local):
                 IN[b], OUT[b] = i, o
                 changed = True
     return IN
+
+
+# ---------------------------------------------------------------- post-dominators / control dependence
+def post_dominators(body):
+    """pdom[b] = set of blocks post-dominating b (virtual exit = -1 joins returns and diverging blocks)."""
+    n = len(body.blocks)
+    reach = body.reachable()
+    succ = {b: (list(body.succ[b]) or [-1]) for b in reach}
+    for b in reach:
+        if 'return' in body.blocks[b]['t']:
+            succ[b] = [-1]
+    nodes = set(reach) | {-1}
+    pdom = {b: set(nodes) for b in nodes}
+    pdom[-1] = {-1}
+    changed = True
+    order = list(reversed(body.rpo()))
+    while changed:
+        changed = False
+        for b in order:
+            new = None
+            for s in succ[b]:
+                new = set(pdom[s]) if new is None else (new & pdom[s])
+            new = (new or set()) | {b}
+            if new != pdom[b]:
+                pdom[b] = new
+                changed = True
+    return pdom
+
+
+def control_dependence(body):
+    """{block: set of (switch_block, successor)} — direct control dependence (Ferrante et al.):
+    E depends on edge S->A iff E post-dominates A (or E == A) and E does not strictly post-dominate S."""
+    pdom = post_dominators(body)
+    out = {}
+    for S in pdom:
+        if S == -1:
+            continue
+        succs = body.succ[S]
+        if len(succs) < 2:
+            continue
+        for A in succs:
+            for E in pdom[A]:
+                if E == -1:
+                    continue
+                if E == S or E not in pdom[S]:
+                    out.setdefault(E, set()).add((S, A))
+                elif E in pdom[S] and E != S:
+                    pass
+    return out
